@@ -52,7 +52,20 @@ def _alarm(signum, frame):
 _STREAMS = {}
 
 
+def _die_with_parent():
+    """Linux: this process gets SIGKILL when its parent dies (a check killed from outside, e.g. by the OOM killer, must not leave
+    workers behind that keep its output pipe open)."""
+    try:
+        import ctypes
+        ctypes.CDLL("libc.so.6", use_errno=True).prctl(1, signal.SIGKILL, 0, 0, 0)  # PR_SET_PDEATHSIG
+        if os.getppid() == 1:
+            os._exit(0)
+    except Exception:
+        pass
+
+
 def _worker_init(modname, tier):
+    _die_with_parent()
     driver.reset_after_fork()
     mod = importlib.import_module(modname)
     for s in mod.streams(tier):
